@@ -50,6 +50,7 @@ func checkC06(c *Ctx) Meta {
 	checkBranchPolarity(c, "C06-BRANCH")
 	checkKeyConstantsDistinct(c, "C06-BRANCH")
 	checkImportLoopPolarity(c, "C06-BRANCH")
+	checkCountersFinal(c, "C06-BRANCH")
 
 	li := keystoreLocksets(c)
 	if f := c.MustFn("C06-RMW", "poc/wallet/keystore", "(*AddrManager).nextAddresses"); f != nil {
